@@ -1,6 +1,7 @@
 SPECIFICATION Spec
 CONSTANT Thorough = FALSE
 INVARIANT TableClosed
+INVARIANT HookYieldsTypes
 INVARIANT OfferedSane
 INVARIANT NameClashDistinct
 INVARIANT CanonAccepted
